@@ -4,6 +4,9 @@ import ShVerif.Model.C35
 
     script <cfg> <kind> <perm> <umask> <new>            → the system-call script, canonical text
     prefix <cfg> <perm> <umask> <old> <new> <k>         → file-system state after the first k calls
+    failscript <cfg> <probetmp|probedir|temp>           → the script of a run whose atomic replace fails
+    isprefix <cfg> <ok|stage> <perm> <umask> <new> <op>* → prefix | not-a-prefix-of …  (a killed run's calls)
+    spectarget <op>*                                     → ok | violation <op>   (alphabet of calls on the target; spec op)
     speckill <perm> <old> <new> <content> <mode> <kind> → ok | violation   (the property's own words on an
                                                            observed post-kill state; spec op)
   cfg ∈ same|xdev|notmp    kind ∈ reg|dir|symlink|fifo|other
@@ -25,6 +28,9 @@ def parseCfg : String → Option TmpCfg
 def parseKind : String → Option FKind
   | "reg" => some .reg | "dir" => some .dir | "symlink" => some .symlink
   | "fifo" => some .fifo | "other" => some .other | _ => none
+
+def parseFailAt : String → Option FailAt
+  | "probetmp" => some .probeTmp | "probedir" => some .probeDir | "temp" => some .temp | _ => none
 
 def showPath : Path → String
   | .target => "T" | .probeTmp => "P1" | .probeDir => "P2" | .temp => "X"
@@ -69,6 +75,30 @@ def handle (args : List String) : String :=
       | some fs => showState fs o n
       | none => "error"
     | _, _, _, _, _, _ => "bad-op"
+  | ["failscript", cfg, stage] =>
+    match parseCfg cfg, parseFailAt stage with
+    | some c, some a => ";".intercalate ((failScript c a).map showOp)
+    | _, _ => "bad-op"
+  | "isprefix" :: cfg :: stage :: perm :: umask :: new :: obs =>
+    match parseCfg cfg, parseOct perm, parseOct umask, ofHex new with
+    | some c, some p, some u, some n =>
+      let script : Option (List Op) :=
+        if stage = "ok" then some (writeScript c p u n) else (parseFailAt stage).map (failScript c)
+      match script with
+      | none => "bad-op"
+      | some sc =>
+        let want := sc.map showOp
+        let got := obs.filter (· != "-")
+        if got.isPrefixOf want then "prefix"
+        else "not-a-prefix-of " ++ ";".intercalate want
+    | _, _, _, _ => "bad-op"
+  | "spectarget" :: toks =>
+    -- the property's alphabet on the observed calls that touch the target's name: lstat, and the
+    -- rename of the pending file onto it; anything else (open for writing, truncate, chmod, unlink,
+    -- write through a descriptor of the target) is a violation
+    match toks.find? (fun t => t != "lstat:T" && t != "rename:X:T" && t != "-") with
+    | none => "ok"
+    | some t => "violation " ++ t
   | ["speckill", perm, old, new, content, mode, kind] =>
     match parseOct perm, ofHex old, ofHex new, ofHex content, parseOct mode with
     | some p, some o, some n, some c, some m =>
